@@ -50,6 +50,33 @@ L_DEN = ("TLC compares the observed outcome (result, consumed prefix, exception 
          "generated grammar x input x configuration with the denotation Den evaluated on the grammar table extracted "
          "from the compiled types; ")
 
+def design_buffer(tier, seed):
+    """design-level model checking of spec/BufferInput.tla (no code involved)"""
+    import re
+    import shutil
+    states = trans = 0
+    runs = []
+    grid = [(4, 3, 1, 3), (4, 2, 2, 3), (5, 4, 1, 3)] if tier == "quick" else [(n, m, c, 3) for n in (4, 5, 6) for m in (1, 2, 3, 4, 5) for c in (1, 2, 3)]
+    for (n, mx, ch, rq) in grid:
+        d = tempfile.mkdtemp(prefix="mcbuf", dir=vlib.CACHE)
+        cfg = os.path.join(d, "MC.cfg")
+        open(cfg, "w").write("SPECIFICATION Spec\nCONSTANTS N = %d Maximum = %d Chunk = %d MaxReq = %d Loop = TRUE\n"
+                             "INVARIANTS Bounds OverflowOnlyIfTooSmall\nPROPERTY Completed\nCHECK_DEADLOCK FALSE\nVIEW View\n" % (n, mx, ch, rq))
+        rc, txt = vlib.run(["java", "-XX:+UseParallelGC", "-cp", vlib.TLC_JAR, "tlc2.TLC", "-workers", "8", "-metadir", os.path.join(d, "md"),
+                            "-config", cfg, "BufferInput.tla"], 1200, cwd=vlib.SPEC)
+        shutil.rmtree(d, ignore_errors=True)
+        m = re.search(r"(\d+) states generated, (\d+) distinct states found", txt)
+        if rc != 0 or not m:
+            if "is violated" in txt:
+                return {"verdicts": [{"p": "C07", "why": "design-level: BufferInput violates its invariants for N=%d Maximum=%d Chunk=%d" % (n, mx, ch),
+                                      "rule": "BufferInput.tla", "a": txt[-1500:], "b": 0}], "states": states, "transitions": trans}
+            raise Broken("TLC failed on BufferInput.tla\n" + txt[-1500:])
+        trans += int(m.group(1))
+        states += int(m.group(2))
+        runs.append({"N": n, "Maximum": mx, "Chunk": ch, "MaxReq": rq, "distinct": int(m.group(2))})
+    return {"states": states, "transitions": trans, "design": {"BufferInput.tla": runs}}
+
+
 PROPS = {
     "C09": {
         "families": ["conv"],
@@ -138,6 +165,23 @@ PROPS = {
                 "8..64-bit binary rules; every byte at every pattern position for istring; every record is judged",
         "note": "template arguments (characters, masks, values) are compile-time: boundary-structured samples only; the native "
                 "aggregator for the large spaces is trusted code cross-checked by raw sampled records",
+    },
+    "C07": {
+        "families": ["buf"],
+        "must_count": ["cls2", "rd", "cases"],
+        "nontrivial_key": "cls2",
+        "extra": design_buffer,
+        "level": "BufferInput.tla models buffer_input (window, require/discard arithmetic, overflow, a reader that may return fewer "
+                 "bytes than asked, zero only at the end) against an arbitrary client; TLC checks the window / reader bounds and the "
+                 "refinement of the memory view (a completed size(n) shows min(n, bytes left) unless it overflowed) over every "
+                 "reader schedule.  Conformance: every corpus case runs through memory_input and then through buffer_input with "
+                 "scripted readers -- including every schedule TLC enumerates for that length -- three chunk sizes, ample and too "
+                 "small buffers, and through string/read/mmap/argv/istream/cstream inputs; each run is validated by the same "
+                 "PegContract against the same Den, so result, consumed length, action calls, positions and errors must coincide; "
+                 "std::overflow_error is tolerated only when the buffer is smaller than input + look-ahead",
+        "rule": "cases = grammar x input x input class / chunk / maximum / reader schedule; non-trivial = runs through a class other "
+                "than the plain memory input",
+        "note": "mmap, stdio and argv plumbing are exercised as trace producers, not modelled",
     },
     "C12": {
         "families": ["tree"],
